@@ -45,6 +45,13 @@ class CFG(object):
         self.idom = self._idom()
         self.back_edges = [(u, v) for u in self.reach for v in self.succ[u] if self.dominates(v, u)]
         self.loops = self._loops()
+        # innermost loop header of every block that is inside a loop
+        self.innermost = {}
+        for h, blks in self.loops.items():
+            for b in blks:
+                cur = self.innermost.get(b)
+                if cur is None or len(blks) < len(self.loops[cur]):
+                    self.innermost[b] = h
 
     def _reach_fwd(self, s):
         seen = {s}
